@@ -124,6 +124,7 @@ def run(pid, tier, repo, root, log, pairs_for=()):
     out = {'obligations': [], 'failures': [], 'bounded': [], 'trusted': [], 'summary': {}, 'cmd': ''}
     if not entries:
         return out
+    all_entries = list(entries)
     files = sorted({os.path.join(root, 'kani', e['file']) for e in entries})
     cache_dir = os.path.join(root, 'build', 'cache')
     os.makedirs(cache_dir, exist_ok=True)
@@ -138,19 +139,41 @@ def run(pid, tier, repo, root, log, pairs_for=()):
         if err:
             return {'undecided': err}
         try:
-            cmd = ['cargo', 'kani', '--no-default-features', '-Z', 'function-contracts', '-Z', 'stubbing',
-                   '-j', str(min(12, max(1, len(entries)))), '--output-format', 'terse']
-            for e in entries:
-                cmd += ['--harness', e['harness']]
-            env = dict(os.environ, CARGO_NET_OFFLINE='true', CARGO_TARGET_DIR=os.path.join(d, 'target'))
-            try:
-                # address-space cap per process: a runaway CBMC must fail, not thrash the machine
-                p = subprocess.run(['bash', '-c', 'ulimit -v 20000000; exec "$@"', 'kani'] + cmd, cwd=d, env=env,
-                                   capture_output=True, text=True, timeout=3000 if tier == 'thorough' else 1500)
-                raw = {'out': p.stdout + '\n' + p.stderr, 'rc': p.returncode, 'cmd': ' '.join(cmd)}
-            except subprocess.TimeoutExpired as ex:
-                raw = {'out': (ex.stdout or b'').decode(errors='replace') if isinstance(ex.stdout, bytes) else (ex.stdout or ''),
-                       'rc': -9, 'cmd': ' '.join(cmd), 'timeout': True}
+            lost_files = []
+            for _attempt in range(4):
+                cmd = ['cargo', 'kani', '--no-default-features', '-Z', 'function-contracts', '-Z', 'stubbing',
+                       '-j', str(min(12, max(1, len(entries)))), '--output-format', 'terse']
+                for e in entries:
+                    cmd += ['--harness', e['harness']]
+                env = dict(os.environ, CARGO_NET_OFFLINE='true', CARGO_TARGET_DIR=os.path.join(d, 'target'))
+                try:
+                    # address-space cap per process: a runaway CBMC must fail, not thrash the machine
+                    p = subprocess.run(['bash', '-c', 'ulimit -v 20000000; exec "$@"', 'kani'] + cmd, cwd=d, env=env,
+                                       capture_output=True, text=True, timeout=3000 if tier == 'thorough' else 1500)
+                    raw = {'out': p.stdout + '\n' + p.stderr, 'rc': p.returncode, 'cmd': ' '.join(cmd)}
+                except subprocess.TimeoutExpired as ex:
+                    raw = {'out': (ex.stdout or b'').decode(errors='replace') if isinstance(ex.stdout, bytes) else (ex.stdout or ''),
+                           'rc': -9, 'cmd': ' '.join(cmd), 'timeout': True}
+                    break
+                if raw['rc'] == 0 or parse_kani_output(raw['out']):
+                    break
+                # the harness crate did not build: a harness file names an item that the changed code no longer
+                # has (lost anchor).  Drop the harness files that rustc blames, remember them, and retry.
+                blamed = sorted({os.path.basename(m) for m in re.findall(r'error(?:\[E\d+\])?:[^\n]*\n\s*-->\s*(\S*/kani/\w+\.rs):\d+', raw['out'])}
+                                & {e['file'] for e in entries})
+                if not blamed:
+                    break
+                lost_files += blamed
+                entries = [e for e in entries if e['file'] not in blamed]
+                shutil.rmtree(d, ignore_errors=True)
+                if not entries:
+                    raw = {'out': '', 'rc': 0, 'cmd': '(every harness file of this property lost its anchor)'}
+                    break
+                d, err = make_scratch(repo, root, entries, pid)
+                if err:
+                    return {'undecided': err}
+            raw['lost_files'] = lost_files
+            raw['kept'] = [e['harness'] for e in entries]
             raw['wall_s'] = time.time() - t0
             raw['cached'] = False
             # failing harnesses: ask Kani for concrete values (playback) while the scratch copy exists
@@ -185,12 +208,17 @@ def run(pid, tier, repo, root, log, pairs_for=()):
                         }
                     except subprocess.TimeoutExpired:
                         raw['native'][e['harness']] = {'values': vals, 'output': 'native replay timed out', 'confirmed': False}
-            if not raw.get('timeout') and per:
+            if not raw.get('timeout') and (per or raw.get('lost_files')):
                 json.dump(raw, open(cpath, 'w'))
         finally:
             shutil.rmtree(d, ignore_errors=True)
     per = parse_kani_output(raw['out'])
     out['cmd'] = raw['cmd']
+    if raw.get('lost_files'):
+        out['lost'] = [{'id': e['id'], 'file': e['file'], 'props': e['props']} for e in all_entries if e['file'] in raw['lost_files']]
+        entries = [e for e in all_entries if e['file'] not in raw['lost_files']]
+        log('NOTE Kani harness file(s) %s no longer build against the changed code (an item they name is gone): %s not checked'
+            % (', '.join(sorted(set(raw['lost_files']))), ', '.join(x['id'] for x in out['lost'])))
     if raw.get('timeout'):
         return {'undecided': 'cargo kani timed out', 'detail': raw['out'][-2000:]}
     if not per and raw['rc'] != 0:
